@@ -126,14 +126,23 @@ func baseNextToken(l *Lexer) token.Token {
 		// Capture position BEFORE reading the string
 		startLine, startColumn := l.Line, l.Column
 		tok = l.NewTokenAt(token.STRING, l.readString('"'), startLine, startColumn)
+		if l.CurrentChar != '"' {
+			tok.Type = token.ILLEGAL // unterminated string
+		}
 	case '\'':
 		// Capture position BEFORE reading the string
 		startLine, startColumn := l.Line, l.Column
 		tok = l.NewTokenAt(token.STRING, l.readString('\''), startLine, startColumn)
+		if l.CurrentChar != '\'' {
+			tok.Type = token.ILLEGAL // unterminated string
+		}
 	case '`':
 		// Capture position BEFORE reading the raw string
 		startLine, startColumn := l.Line, l.Column
 		tok = l.NewTokenAt(token.RAW_STRING, l.readRawString(), startLine, startColumn)
+		if l.CurrentChar != '`' {
+			tok.Type = token.ILLEGAL // unterminated raw string
+		}
 	case 0:
 		if l.position < len(l.input) {
 			// a NUL byte inside the input is not the end of the input
